@@ -63,6 +63,11 @@ Classified == Forgery(c) => Family(c) \in Families
 HonestKeyForgeries == (Forgery(c) /\ TorsionFree(c.A) /\ ~SmallOrder(c.A)) =>
                         (~Canonical(c) \/ (c.R = <<0, 0>> /\ c.S % L = (c.k * c.A[1]) % L))
 
+\* what ONLY a cofactored verifier would accept (nothing else is wrong with the case): strict verification rejects it
+CofOnly(x) == EqCof(x) /\ ~Eq(x) /\ Canonical(x) /\ ~SmallOrder(x.R) /\ ~SmallOrder(x.A)
+CofShape(x) == IF TorsionFree(x.A) THEN "honest" ELSE "mixed"
+CofOnlyRejected == CofOnly(c) => ~Strict(c) /\ (~TorsionFree(c.R) \/ ~TorsionFree(c.A))
+
 Init == c \in Case
 Next == UNCHANGED c
 Spec == Init /\ [][Next]_c
